@@ -153,3 +153,79 @@ def collect_failures(rep, I, rule, prop_kinds=None):
         if prop_kinds is not None and ob.kind not in prop_kinds:
             continue
         rep.fail(rule, '%s|%s|%s' % (ob.fn, ob.kind, ob.sym or ''), ob.msg, node=ob.node, function=ob.fn)
+
+
+def automaton_writers(rep, prog, rule):
+    """Who may write into an automaton object (its current state, time stamp, tables, extra pointer): only the constructors,
+    the three switch functions, the periodic tick and static helpers all of whose callers are among those.  The transition relations decided
+    for the switch functions describe the engines only if nothing else moves their state or edits their tables.
+    A write is an assignment / ++ / -- whose target goes through a member of `struct automata` (also an element of its
+    state or transition table, also the object as a whole through an `automata *`)."""
+    import os
+    from ..facts import walk, REPO
+    core = os.path.join(REPO, 'lltdResponder') + os.sep
+    fns, callers = {}, {}
+    for ix in prog.index.values():
+        for fname, fn in ix.functions.items():
+            if not (fn.get('_file') or '').startswith(core):
+                continue
+            fns.setdefault(fname, (ix, fn))
+            for n in walk(fn):
+                if n.get('kind') == 'CallExpr' and n.get('inner'):
+                    c = n['inner'][0]
+                    while c.get('kind') in ('ImplicitCastExpr', 'ParenExpr'):
+                        c = c['inner'][0]
+                    if c.get('kind') == 'DeclRefExpr':
+                        callers.setdefault(c.get('referencedDecl', {}).get('name'), set()).add(fname)
+    module = set(f for f in fns if f.startswith('init_automata_') or f.startswith('switch_state_'))
+    if len(module) < 6:
+        raise AnalysisBroken('constructors / switch functions of the automata not found (%s)' % sorted(module))
+    # ... and the periodic tick, which resets the RepeatBand enumerator directly when the session table is empty (that it
+    # leaves the *mapping* engine alone unless the 30 s deadline expired is decided on the interpreted tick, R14.5; the
+    # session automaton is not handed to it)
+    if 'automata_tick' in fns:
+        module.add('automata_tick')
+    grew = True
+    while grew:
+        grew = False
+        for fname, (ix, fn) in fns.items():
+            if fname not in module and fn.get('storageClass') == 'static' and callers.get(fname) and callers[fname] <= module:
+                module.add(fname)
+                grew = True
+
+    def strip(e):
+        while e.get('kind') in ('ParenExpr', 'ImplicitCastExpr', 'CStyleCastExpr') and e.get('inner'):
+            e = e['inner'][-1]
+        return e
+
+    def through_automaton(ix, e):
+        e = strip(e)
+        k = e.get('kind')
+        if k == 'MemberExpr':
+            rp = ix.field_parent.get(e.get('referencedMemberDecl'))
+            if rp and rp[0].name.replace('struct ', '') == 'automata':
+                return True
+            return through_automaton(ix, e['inner'][0])
+        if k == 'ArraySubscriptExpr':
+            return through_automaton(ix, e['inner'][0])
+        if k == 'UnaryOperator' and e.get('opcode') == '*':
+            t = ' '.join(((strip(e['inner'][0]).get('type') or {}).get('qualType', '')).replace('struct ', '').split())
+            return t in ('automata *', 'automata *const') or through_automaton(ix, e['inner'][0])
+        return False
+    nw = 0
+    for fname, (ix, fn) in sorted(fns.items()):
+        for n in walk(fn):
+            lhs = None
+            if n.get('kind') in ('BinaryOperator', 'CompoundAssignOperator') and n.get('opcode', '').endswith('=') and n.get('opcode') not in ('==', '!=', '<=', '>='):
+                lhs = n['inner'][0]
+            elif n.get('kind') == 'UnaryOperator' and n.get('opcode') in ('++', '--'):
+                lhs = n['inner'][0]
+            if lhs is None or not through_automaton(ix, lhs):
+                continue
+            nw += 1
+            rep.check(fname in module, rule, 'writer|%s' % fname,
+                      'function %s writes into an automaton object (state, time stamp or tables) outside the constructors and switch functions: '
+                      'the engine no longer moves only along its transition table' % fname, node=n, function=fname)
+    if nw < 6:
+        rep.broke('only %d writes into automaton objects found' % nw)
+    return nw
